@@ -51,6 +51,13 @@ def bodyKind? : Sexp → Option BodyKind
   | .atom "eager" => some .eager
   | _ => none
 
+/-- keyword arguments of amax / amin besides `key=`: 0 none, 1 one that nobody knows, 2 `default=` -/
+def extraKw? : Sexp → Option ExtraKw
+  | .atom "0" => some .none
+  | .atom "1" => some .unknown
+  | .atom "2" => some .dflt
+  | _ => none
+
 def attempt? : Sexp → Option Attempt
   | .list [.atom "ret", v] => v.int?.map .ret
   | .list [.atom "raise", c] => c.nat?.map .raise
@@ -61,10 +68,10 @@ def call? : Sexp → Option (Call Nat)
   | .list [.atom "call", .atom "afilter", n, s] => do some (.afilter (← fnObj? n) (← src? s))
   | .list [.atom "call", .atom "afilterfalse", s] => (src? s).map .afilterfalse
   | .list [.atom "call", .atom "asorted", kn, rev, s] => do some (.asorted (← fnObj? kn) (← rev.bool?) (← src? s))
-  | .list [.atom "call", .atom "amaxmin", isMin, badKw, kn, .list [.atom "one", s]] => do
-    some (.amaxmin (← isMin.bool?) (← badKw.bool?) (← fnObj? kn) (.one (← src? s)))
-  | .list [.atom "call", .atom "amaxmin", isMin, badKw, kn, .list [.atom "elems", xs]] => do
-    some (.amaxmin (← isMin.bool?) (← badKw.bool?) (← fnObj? kn) (.elems (← xs.natList?)))
+  | .list [.atom "call", .atom "amaxmin", isMin, kw, kn, .list [.atom "one", s]] => do
+    some (.amaxmin (← isMin.bool?) (← extraKw? kw) (← fnObj? kn) (.one (← src? s)))
+  | .list [.atom "call", .atom "amaxmin", isMin, kw, kn, .list [.atom "elems", xs]] => do
+    some (.amaxmin (← isMin.bool?) (← extraKw? kw) (← fnObj? kn) (.elems (← xs.natList?)))
   | .list [.atom "call", .atom "asift", s] => (src? s).map .asift
   | .list [.atom "call", .atom "aretry", m, l, .list (.atom "script" :: sc), b, k] => do
     some (.aretry (← m.nat?) (← l.natList?) (← sc.mapM attempt?) (← b.bool?) (← bodyKind? k))
@@ -81,6 +88,7 @@ def res? : Sexp → Option (Res Nat)
   | .list [.atom "ok", .atom "pair", y, n] => do some (.ok (.pair (← y.natList?) (← n.natList?)))
   | .list [.atom "ok", .atom "val", v] => v.int?.map fun v => .ok (.val v)
   | .list [.atom "ok", .atom "none"] => some (.ok .none)
+  | .list [.atom "ok", .atom "dflt"] => some (.ok .dflt)
   | .list [.atom "raised", .atom "typeError"] => some (.raised .typeError)
   | .list [.atom "raised", .atom "valueError"] => some (.raised .valueError)
   | .list [.atom "raised", .atom "assertionError"] => some (.raised .assertionError)
@@ -129,7 +137,11 @@ def handle (id : Nat) (_hdr : List Sexp) (body : List Sexp) : String :=
     let corr := model == impl && refOk
     let d :=
       if !refOk then short s!"python built-in disagrees with the Lean reference: reference={repr want.res}"
-      else if model == impl then "" else describe model impl
+      else if model == impl then
+        -- a call with `default=` is judged like any other (SPEC and SPECM fail: `C14_default_kw_outside_statement`);
+        -- the generator only produces such calls when told that they belong to the statement
+        (if c.inStatement then "" else "call outside the statement of C14 (amax/amin with default=)")
+      else describe model impl
     let spec := specClause env c impl
     let specm := specClause env c model
     let f (s : String) := if s == "ok" then "ok" else "fail:" ++ s
